@@ -87,8 +87,7 @@ type Call struct {
 	urlSeen      string
 	urlSet       bool
 	requestStart time.Time
-	readyStep    int  // 1 + scheduler step at which the library's request goroutine finished (0: not yet)
-	wroteLate    bool // a Write was entered at a later step than that: the library had the response in hand
+	readyStep    int // 1 + scheduler step at which the library's request goroutine finished (0: not yet)
 	doCount      int
 	bodyClose    int
 	hits         [NumPoints]int
@@ -230,8 +229,6 @@ func Yield(ctx context.Context, point string) {
 	switch point {
 	case "request.finish":
 		c.noteReady(c.S.StepNow())
-	case "write.enter":
-		c.noteWrite(c.S.StepNow())
 	}
 	if point == "write.enter" || point == "closewrite.enter" {
 		// the first Write / CloseWrite is what starts the request: the instant
@@ -248,21 +245,13 @@ func (c *Call) noteReady(step int) {
 	}
 }
 
-//go:norace
-//go:noinline
-func (c *Call) noteWrite(step int) {
-	if c.readyStep != 0 && step+1 > c.readyStep {
-		c.wroteLate = true
-	}
-}
-
-// WroteAfterResponse: the library entered a Write at a later scheduler step
-// than the one in which its request goroutine finished, that is, when it
-// already had the response (or the failure of Do) in hand.
+// AnswerInHand: the library's request goroutine finished at an earlier
+// scheduler step than the current one, so the library has the response (or
+// the failure of Do) in hand and has acted on it.
 //
 //go:norace
 //go:noinline
-func (c *Call) WroteAfterResponse() bool { return c.wroteLate }
+func (c *Call) AnswerInHand() bool { return c.readyStep != 0 && c.S.StepNow()+1 > c.readyStep }
 
 //go:norace
 //go:noinline
@@ -281,6 +270,8 @@ func (c *Call) RequestStart() time.Time { return c.requestStart }
 
 // Exchange is one HTTP request/response pair.
 type Exchange struct {
+	upEOF               bool // the pump has seen the end of the request body
+	RespClose           bool // HTTP/1.1: the answer announces that the server will close the connection (it has given up on the request)
 	ConnClosedOnUpload  bool // HTTP/1.1: the server closed the connection on a client that kept uploading after the answer
 	everFlushed         bool // the handler called Flush
 	written             int  // bytes the handler wrote
@@ -434,6 +425,7 @@ func (n *Net) Do(req *http.Request) (*http.Response, error) {
 		Request:       req,
 	}
 	announceTrailers(resp, c.K.DropTrailers)
+	resp.Close = e.RespClose
 	resp.Body = &respBody{e: e, resp: resp}
 	e.resp = resp
 	e.RespReturned = true
@@ -605,11 +597,11 @@ func (e *Exchange) runPump() {
 				size = space
 			}
 		}
-		// Sampled before the read, while every other goroutine is parked: writes
-		// are sequential, so if a late Write has been entered by now, every
-		// earlier one has been consumed, and what this read returns is the late
-		// one's (or a later one's).
-		lateWriter := e.Call.WroteAfterResponse()
+		// Sampled before the read, while every other goroutine is parked: has the
+		// library's request goroutine finished at an earlier scheduler step? Then
+		// the library has the answer in hand, and whatever this read still gets
+		// out of the request body is sent on the client's own account.
+		hasAnswer := e.Call.AnswerInHand()
 		e.mu.Lock()
 		e.pumpInRead = true
 		e.updateDeaf()
@@ -637,15 +629,15 @@ func (e *Exchange) runPump() {
 				e.mu.Lock()
 				e.postSeen += n
 				over := e.Call.K.HTTP2 && !e.Call.K.Lazy && e.postSeen > e.Call.K.PostAccept
-				h1close := !e.Call.K.HTTP2 && e.Call.K.H1Close && e.RespReturned && lateWriter
+				h1close := !e.Call.K.HTTP2 && e.RespClose && e.RespReturned && hasAnswer
 				if h1close {
-					// net/http's HTTP/1.1 server reads on for a bounded amount (256 KiB)
-					// after the handler is done and then closes the connection; the
-					// client transport's write fails, it closes its end, and whatever
-					// of the response has not been read yet is gone. Where that bound
-					// falls is the stub's choice - but it only ever lets it fall on
-					// bytes written by a client that already had the answer: a loss
-					// before that is nobody's fault and is not simulated.
+					// The server has given up on the request (RespClose) and closes the
+					// connection once its answer is out; a client transport that is
+					// still uploading gets a write error, closes its end, and whatever
+					// of the response has not been read yet is gone. The stub charges
+					// that only to request bytes that leave the client after the
+					// library had the answer - announcement included - in hand: a
+					// loss before that is nobody's fault and is not simulated.
 					e.ConnClosedOnUpload = true
 					if !e.Down.Consumed() {
 						e.Down.Abort(errors.New("read tcp: use of closed network connection"))
@@ -665,6 +657,9 @@ func (e *Exchange) runPump() {
 		}
 		if err != nil {
 			if errors.Is(err, io.EOF) {
+				e.mu.Lock()
+				e.upEOF = true
+				e.mu.Unlock()
 				e.Up.Finish(io.EOF)
 			} else if !done {
 				// The client closed or failed the request body before
@@ -862,6 +857,14 @@ func (e *Exchange) commitLocked(status int) {
 		snap["Date"] = []string{"Mon, 01 Jan 2024 00:00:00 GMT"}
 	}
 	e.RespHeader = snap
+	if !e.Call.K.HTTP2 && e.Call.K.H1Close && !e.upEOF {
+		// net/http's HTTP/1.1 server, about to answer while the request body has
+		// not ended, first reads on for a bounded amount (256 KiB); if the end
+		// is not within it, it gives up on the request and says so: the answer
+		// carries "Connection: close". The stub lets that bound be exhausted
+		// whenever the request has not ended by now.
+		e.RespClose = true
+	}
 	e.setCommitFlag()
 }
 
